@@ -64,3 +64,28 @@ Definition removed_rows (d : desc) (mask : list bool) : option desc :=
 Definition removed_cols (d : desc) (mask : list bool) : option desc :=
   if removed_some is_dual (d_cols d) mask then None
   else Some (mkDesc (d_rows d) (compact D_UNDEFINED (d_cols d) mask)).
+
+(* ---- addedRows(n) / addedCols(n): the new rows enter basic (dualRowStatus), the new columns non-basic (primalColStatus);
+        [lp] is the LP AFTER the addition ---- *)
+Definition added_rows (lp : blp) (d : desc) : desc :=
+  mkDesc (d_rows d ++ map dualStatus (skipn (length (d_rows d)) (b_rows lp))) (d_cols d).
+Definition added_cols (lp : blp) (d : desc) : desc :=
+  mkDesc (d_rows d) (d_cols d ++ map primalStatus (skipn (length (d_cols d)) (b_cols lp))).
+
+(* ---- removedRow(i) / removedCol(i): the status of the last entry moves into the hole ---- *)
+Definition swap_out {A} (l : list A) (i : nat) : list A :=
+  match l with
+  | [] => []
+  | a :: r => firstn (length r) (set_nth l i (last l a))
+  end.
+
+Definition removed_row (d : desc) (i : nat) : option desc :=
+  match nth_error (d_rows d) i with
+  | None => None
+  | Some s => if is_dual s then Some (mkDesc (swap_out (d_rows d) i) (d_cols d)) else None
+  end.
+Definition removed_col (d : desc) (j : nat) : option desc :=
+  match nth_error (d_cols d) j with
+  | None => None
+  | Some s => if is_dual s then None else Some (mkDesc (d_rows d) (swap_out (d_cols d) j))
+  end.
